@@ -96,7 +96,7 @@ def gw1(P, C):
         ap = calls(f, "add_penalty_term")
         sz = calls(f, "cholmod_l_spzeros")
         gl = calls(f, "glamfit_complex")
-        want = ("(v0=add_penalty_term(v1.get(),(&knots[v2][0]),ndim,v2,order[v2],(($6.size()>1)?$6[v2]:$6[0]),(($5.size()>1)?$5[v2]:$5[0]),"
+        want = ("(v0=add_penalty_term(v1.get(),(&knots[v2][0]),ndim,v2,order[v2],((1<$6.size())?$6[v2]:$6[0]),((1<$5.size())?$5[v2]:$5[0]),"
                 "(v2==$7),v0,(&v3)))")
         ok = len(ap) == 1 and ap[0][2] == want
         det = "add_penalty_term statement %s" % ("matches" if ok else (ap[0][2][:300] if ap else "missing"))
